@@ -2043,3 +2043,9 @@ pub fn fuzz_bytes(data: &[u8]) -> Result<(), String> {
     let frags: Vec<(Vec<u32>, u32)> = vec![(vec![], 1), (vec![], 1 << 20), (vec![7, 0, 3, 1, 64], 13), (vec![1, 1, 2, 3, 5, 8, 13, 21], 4096)];
     check_bytes(data, &frags, false).map(|_| ())
 }
+
+/// Valid streams (seed corpus for the fuzz target).
+pub fn seed_streams() -> Vec<Vec<u8>> {
+    let all = fixed_msgs();
+    vec![build_stream(&fixed_hdr(), &all).bytes, build_stream(&fixed_hdr(), &all[..all.len().min(6)]).bytes, build_stream(&fixed_hdr(), &[]).bytes]
+}
